@@ -1198,9 +1198,13 @@ def evaluate_batch(run: lib.Run, batch: list[tuple[dict, list, list, list]], tal
         # F9 signature: HTTP source, server sends ETags, the only failing clause is convergence (the engine does
         # not enforce the server's document), and the trace is exactly what the cached-tag variant predicts
         cm, cr = ans.get("converge_model") or {}, ans.get("converge_model_remote") or {}
+        # (the remote-tag variant either converges on this history or its own trace ends with the source not loadable — a one-shot
+        # fault it has not consumed because it contacts the server at other moments — in which case the clause says nothing about it;
+        # what excludes F9 is the remote-tag variant ALSO failing to converge)
         f9 = (case["kind"] == "http_etag" and bad == ["converge"] and d_cached is None
-              and cm.get("applicable") and not cm.get("ok") and cr.get("applicable") and cr.get("ok"))
+              and cm.get("applicable") and not cm.get("ok") and (cr.get("ok") or not cr.get("applicable")))
         v = {"case": case, "ops": strip_content(ops), "impl": impl, "diff": d_cached if not is_http else (d_cached, d_remote),
+             "converge_of_the_cached_tag_model": cm, "converge_of_the_remote_tag_model": cr,
              "disagree": disagree, "lock_violations": lockv, "spec": spec, "bad": bad, "f9": bool(f9), "variant": variant,
              "model": ans["model"], "model_remote": ans["model_remote"]}
         verdicts.append(v)
@@ -1408,4 +1412,6 @@ def replay(run: lib.Run, audit: dict, path: str) -> int:
     print("spec on the implementation's trace:", json.dumps(v["spec"]))
     print("failing clauses:", v["bad"], "| F9 signature:", v["f9"], "| model/impl disagree:", v["disagree"],
           "| atomic-block assumption broken:", v["lock_violations"])
+    print("convergence clause on the cached-tag model's own trace:", v.get("converge_of_the_cached_tag_model"),
+          "| on the remote-tag model's:", v.get("converge_of_the_remote_tag_model"))
     return 1 if (v["bad"] or v["disagree"]) else 0
